@@ -210,6 +210,8 @@ class Interp:
                 rec[fd['n']] = fd['initv'] if fd['initv'] is not None else 0
             elif ct.startswith('std::map<') or ct.startswith('std::unordered_map<') or ct.startswith('std::set<') or ct.startswith('std::unordered_set<'):
                 rec[fd['n']] = {'__map__': True}
+            elif ct.startswith('std::atomic<'):
+                rec[fd['n']] = {'__cls__': 'std::atomic', '__open__': True, 'v': (fd.get('initv') or 0) if fd.get('hasinit') else 0}       # a cell of its own
             elif ct.startswith('std::pair<'):
                 rec[fd['n']] = {'__cls__': None, '__open__': True, 'first': 0, 'second': 0}
             elif ct.startswith('std::function<'):
@@ -1633,6 +1635,35 @@ def h_stream_str(it, f, st, a):
 
 STREAM_HOOKS = {'operator<<': h_stream_out, 'str': h_stream_str}
 
+
+def _bound(upper):
+    def h(it, f, st, a):
+        """std::lower_bound / upper_bound(first, last, value) over a sequence of numbers"""
+        if not ('obj' not in st and len(a) >= 3 and isinstance(a[0], It) and isinstance(a[1], It) and isinstance(a[0].c, list)):
+            raise AnalysisBroken('%s: binary search over something the replay does not hold as a sequence (%s)' % (f.short, f.loc(st['i'])))
+        v = a[0].c
+        for i in range(a[0].k, a[1].k):
+            if not isinstance(v[i], int) or not isinstance(a[2], int):
+                raise AnalysisBroken('%s: binary search over values the replay keeps abstract (%s)' % (f.short, f.loc(st['i'])))
+            if (v[i] > a[2]) if upper else (v[i] >= a[2]):
+                return It(v, i)
+        return It(v, a[1].k)
+    return h
+
+
+def _vec_insert(it, f, st, a):
+    """vector::insert(position, value)"""
+    v = _vec(it, f, st)
+    if isinstance(v, dict):
+        return _emplace(it, f, st, a)
+    if not (len(a) == 2 and isinstance(a[0], It) and a[0].c is v):
+        raise AnalysisBroken('%s: insert with arguments the replay does not understand (%s)' % (f.short, f.loc(st['i'])))
+    r = it.record_of(a[1])
+    v.insert(a[0].k, dict(r) if r is not None else a[1])
+    return It(v, a[0].k)
+
+
+VECTOR_HOOKS.update({'lower_bound': _bound(False), 'upper_bound': _bound(True), 'vector::insert': _vec_insert, 'deque::insert': _vec_insert})
 
 _CONTAINER_HOOK_FUNCS = set()
 for _h in list(VECTOR_HOOKS.values()):
